@@ -1,7 +1,7 @@
 SPECIFICATION Spec
 CONSTANTS Proc = {0, 1}  N = 2  Keys = {1}  MaxOps = 2  MaxW = 1  Spurious = FALSE
           Pre <- PreOne
-          Kinds <- QfKinds
+          Kinds <- Qf2Kinds
 INVARIANTS TypeOK OneWriter ReaderHoldsEntry Asserts Quiescent
 ACTION_CONSTRAINT Dump
 CHECK_DEADLOCK FALSE
